@@ -185,14 +185,27 @@ theorem c06_gen_Roster_Search_eq (l : List Server) (sid : Nat) :
   rw [← e]
   exact this
 
+/-- **`Roster.searchByKey` as translated (the look-up by `GetID()` that `MakeTreeFromList` uses since round 7; the reduced `ServerIdentity.ID` stands for the identifier derived from the key) is the model's `search`** on a roster without nil entries: it does not panic
+and returns the position and the entry of the first server whose `ID` field is the id, `-1, nil` when there is
+none (a nil entry before the hit is the panic outcome: the loop reads `e.ID`) -/
+theorem c06_gen_Roster_searchByKey_eq (l : List Server) (sid : Nat) :
+    Gen.C06.Roster_searchByKey (rosterOf l) sid = some (searchResult (search l sid)) := by
+  have := search_from l sid 0
+  simp only [Nat.add_zero] at this
+  have e : ((search l sid).map fun (p : Nat × Server) => (p.1, p.2)) = search l sid := by
+    cases search l sid <;> rfl
+  unfold Gen.C06.Roster_searchByKey Gen.Rt.enum rosterOf
+  rw [← e]
+  exact this
+
 /-- **the "server not in the roster" test of `MakeTreeFromList` as the code has it** (`idx < 0` on the first result of
-`ro.Search`): it fires exactly when the model's `search` finds nothing — the model's `Err.unknownServer` branch of
+`ro.searchByKey`): it fires exactly when the model's `search` finds nothing — the model's `Err.unknownServer` branch of
 `makeForest` is taken on the same inputs as the code's `didn't find node in roster` return.  (A changed sentinel of
 `Roster.Search`, or a test `idx <= 0` that would refuse the roster's first server, breaks this.) -/
 theorem c06_gen_MakeTreeFromList_notFound_iff (l : List Server) (sid : Nat) :
-    (Gen.C06.Roster_Search (rosterOf l) sid).map (fun r => Gen.C06.MakeTreeFromList_notFound r.1) =
+    (Gen.C06.Roster_searchByKey (rosterOf l) sid).map (fun r => Gen.C06.MakeTreeFromList_notFound r.1) =
       some (search l sid).isNone := by
-  rw [c06_gen_Roster_Search_eq]
+  rw [c06_gen_Roster_searchByKey_eq]
   cases search l sid with
   | none => simp [searchResult, Gen.C06.MakeTreeFromList_notFound]
   | some p =>
